@@ -145,6 +145,12 @@ class LinkWorld:
         inverse = self.fn(to, frs[0]) if (two_way and len(frs) == 1) else None
         return ComponentLink([self.cid[f] for f in frs], self.cid[to], using=using, inverse=inverse)
 
+    def entry(self, obj, edges):
+        labels = set()
+        for frs, to in edges:
+            labels |= set(frs) | {to}
+        return (obj, edges, labels)
+
     def do(self, op):
         dc = self.dc
         k = op[0]
@@ -155,7 +161,32 @@ class LinkWorld:
             if not all(any(self.cid[f].parent is x for x in dc) for f in frs + (to,)):
                 return           # links are only added between datasets of the collection
             l = self.make_link(frs, to, two)
-            self.links.append((l, frs, to, two and len(frs) == 1))
+            edges = [(tuple(frs), to)] + ([((to,), frs[0])] if (two and len(frs) == 1) else [])
+            self.links.append(self.entry(l, edges))
+            dc.add_link(l)
+        elif k == 'multilink':
+            # a link helper with n inputs and m outputs, forwards and backwards, all consistent with the hidden parameter
+            from glue.core.link_helpers import MultiLink
+            _, frs, tos = op
+            if not all(f in self.cid for f in frs + tos):
+                return
+            if not all(any(self.cid[f].parent is x for x in dc) for f in frs + tos):
+                return
+            fw = [self.fn(frs[0], t) for t in tos]
+            bw = [self.fn(tos[0], f) for f in frs]
+            forwards = (lambda *a: tuple(g(a[0]) for g in fw)) if len(tos) > 1 else (lambda *a: fw[0](a[0]))
+            backwards = (lambda *a: tuple(g(a[0]) for g in bw)) if len(frs) > 1 else (lambda *a: bw[0](a[0]))
+            l = MultiLink([self.cid[f] for f in frs], [self.cid[t] for t in tos], forwards=forwards, backwards=backwards)
+            edges = [(tuple(frs), t) for t in tos] + [(tuple(tos), f) for f in frs]
+            self.links.append(self.entry(l, edges))
+            dc.add_link(l)
+        elif k == 'twoway':
+            from glue.core.link_helpers import LinkTwoWay
+            _, a, b = op
+            if not (a in self.cid and b in self.cid) or not all(any(self.cid[f].parent is x for x in dc) for f in (a, b)):
+                return
+            l = LinkTwoWay(self.cid[a], self.cid[b], self.fn(a, b), self.fn(b, a))
+            self.links.append(self.entry(l, [((a,), b), ((b,), a)]))
             dc.add_link(l)
         elif k == 'unlink':
             i = op[1]
@@ -174,7 +205,7 @@ class LinkWorld:
                 owner.remove_component(cid)
                 self.removed_cids.append(cid)
                 if any(owner is x for x in dc):
-                    self.links = [l for l in self.links if c not in l[1] and c != l[2]]
+                    self.links = [l for l in self.links if c not in l[2]]
         elif k == 'addcomp':
             self.extra += 1
             name = 'x%d' % self.extra
@@ -189,7 +220,7 @@ class LinkWorld:
                 dc.remove(d)
                 self.removed_data.append(d)
                 labels = [c.label for c in d.main_components]
-                self.links = [l for l in self.links if not any(f in labels for f in l[1]) and l[2] not in labels]
+                self.links = [l for l in self.links if not any(f in labels for f in l[2])]
         elif k == 'adddata':
             d = self.D[op[1]]
             if d not in dc:
@@ -205,10 +236,8 @@ class LinkWorld:
     def expected_access(self):
         """for each member dataset: set of attribute labels readable (own + through links and inverses)"""
         edges = []
-        for l, frs, to, two in self.links:
-            edges.append((tuple(frs), to))
-            if two:
-                edges.append(((to,), frs[0]))
+        for l, es, labels in self.links:
+            edges.extend(es)
         out = {}
         for d in self.dc:
             own = set(c.label for c in d.main_components if c.label in self.coef)
@@ -252,7 +281,10 @@ class LinkWorld:
                 if gm and not np.array_equal(m, self.t > 0.5 if self.coef[c][0] > 0 else self.t < 0.5):
                     return ('mask', "selection %s > mid evaluated in %s gives %s" % (c, d.label, m.astype(int).tolist()))
         # no reference to removed objects
+        flat = []
         for link in self.dc.external_links:
+            flat.extend([link] if hasattr(link, 'get_from_ids') else list(link))       # link helpers are collections of links
+        for link in flat:
             ids = list(link.get_from_ids()) + [link.get_to_id()]
             for cid in ids:
                 if any(cid is r for r in self.removed_cids):
@@ -266,7 +298,8 @@ class LinkWorld:
         return None
 
 
-LINK_OPS = [('link', ('a1',), 'b1', True), ('link', ('b1',), 'c1', False), ('link', ('a1',), 'c1', False), ('link', ('c1',), 'a2', True),
+LINK_OPS = [('multilink', ('a1',), ('c1', 'c2')), ('multilink', ('a1', 'a2'), ('b1',)), ('multilink', ('a1', 'a2'), ('c1', 'c2')), ('twoway', 'a2', 'e1'),
+            ('link', ('a1',), 'b1', True), ('link', ('b1',), 'c1', False), ('link', ('a1',), 'c1', False), ('link', ('c1',), 'a2', True),
             ('link', ('a1', 'b1'), 'c2', False), ('link', ('c2',), 'e1', True), ('link', ('b1',), 'a1', False)]
 OTHER_OPS = [('unlink', 0), ('unlink', 1), ('set_links', 1), ('set_links', 0), ('rmcomp', 'b1'), ('rmcomp', 'a1'), ('rmcomp', 'c2'), ('addcomp', 'B'),
              ('rmdata', 'B'), ('rmdata', 'C'), ('adddata', 'E'), ('adddata', 'B')]
@@ -321,7 +354,7 @@ def run(tier, seed, R):
     rng = random.Random(seed)
     R.rule = ("(1) discover_links/accessible_links on ALL multisets of <= 2 (3 thorough) links over a universe of 5 ids (inputs of size 0-2, both link orders) "
               "+ seeded random graphs of 3-6 links, against a least-fixed-point oracle with shortest depths; (2) real DataCollection with 4 datasets whose attributes "
-              "share a hidden ground truth: ALL histories of length <= 3 (4 thorough) over {7 links (one-way, two-way, two-input), unlink, set_links, remove/add component, "
+              "share a hidden ground truth: ALL histories of length <= 3 (4 thorough) over {11 links (one-way, two-way, two-input, multi-links with 1<->2, 2<->1 and 2<->2 sides, a two-way helper), unlink, set_links, remove/add component, "
               "remove/add dataset} + delayed-update blocks + random histories of length 5-8; after every step accessibility (BFS), values, selection masks and dangling references "
               "are checked for every (dataset, attribute); (3) shortest-chain values with inconsistent link functions. non-trivial = distinct graph/history with >= 1 derived attribute")
     R.exhaustive = True
